@@ -1,0 +1,26 @@
+//go:build verif
+
+// Contracts for govc (see /verif/DESIGN.md). Comment-only; compiled only with -tags verif.
+
+package tswitch
+
+//@ property C15
+
+//@ pure func validswitch(tf *switchTransform, r *base.LogRecord) bool :=
+//@     tf != nil && forall c int :: 0 <= c && c < len(tf.cases) ==> bmatch.validmatcher(tf.cases[c].matcher, r)
+//@          && (forall j int :: 0 <= j && j < len(tf.cases[c].then) ==> tf.cases[c].then[j] != nil)
+
+// "switch": the steps of the FIRST matching case only, its result returned; no fall-through; PASS if none matches
+//@ func (tf *switchTransform) Transform(record *base.LogRecord) base.FilterResult
+//@   requires record != nil && validswitch(tf, record)
+//@   modifies everything
+//@   preserves mem(base.LogTransformFunc), mem(base.LogFieldLocator), mem(switchCase), mem(bmatch.keyValueMatch), base.LogRecord.Fields, switchTransform.cases
+//@   ensures[no-case-matches] (forall c int :: 0 <= c && c < len(tf.cases) ==> !old(bmatch.matchall(tf.cases[c].matcher, record))) ==> result == base.PASS && base.tlogn == old(base.tlogn)
+//@   ensures[first-matching-case-only] forall c int :: 0 <= c && c < len(tf.cases) && old(bmatch.matchall(tf.cases[c].matcher, record))
+//@        && (forall d int :: 0 <= d && d < c ==> !old(bmatch.matchall(tf.cases[d].matcher, record)))
+//@        ==> exists k int :: 0 <= k && k <= len(tf.cases[c].then) && base.tlogn == old(base.tlogn) + k
+//@              && (forall j int :: 0 <= j && j < k ==> base.tlog[old(base.tlogn) + j] == ref(tf.cases[c].then[j]))
+//@              && (result == base.DROP ==> k >= 1 && base.tres[old(base.tlogn) + k - 1] == 0)
+//@              && (result == base.PASS ==> k == len(tf.cases[c].then))
+//@   loop 1: invariant -1 <= rangeindex && rangeindex < len(tf.cases) && record != nil && base.tlogn == old(base.tlogn)
+//@   loop 1: invariant forall d int :: 0 <= d && d <= rangeindex ==> !old(bmatch.matchall(tf.cases[d].matcher, record))
